@@ -32,9 +32,24 @@ def well_formed(g):
     return all(not (node[0] == "alias" and node[1][0] == i) for i, node in enumerate(g))
 
 
-def lib_text(i, node):
+# how a dependency is written: an import set of any kind names the same library (the loader's bookkeeping - in-progress marks,
+# instance cache - must not depend on the kind)
+EDGE_STYLES = ["plain", "only", "prefix", "rename", "except", "mixed"]
+
+
+def edge(style, i, d, k):
+    if style == "mixed":
+        style = EDGE_STYLES[(i * 7 + d * 3 + k) % 5]
+    if style == "only": return "(only (l%d))" % d
+    if style == "prefix": return "(prefix (l%d) p%d-)" % (d, d)
+    if style == "rename": return "(rename (l%d) (v%d w%d-%d))" % (d, d, d, i)
+    if style == "except": return "(except (l%d) v%d)" % (d, d)
+    return "(l%d)" % d
+
+
+def lib_text(i, node, style="plain"):
     kind, deps = node
-    imports = " ".join("(l%d)" % d for d in deps)
+    imports = " ".join(edge(style, i, d, k) for k, d in enumerate(deps))
     if kind == "healthy":
         return "(define-library (l%d) (import (scheme base) %s) (export v%d) (begin (define v%d %d)))" % (i, imports, i, i, i)
     if kind == "faulty":
@@ -73,7 +88,7 @@ def expect(graph, root):
     return load(root, frozenset())
 
 
-def fields_for(graph, as_files):
+def fields_for(graph, as_files, style="plain"):
     out = []
     for i, node in enumerate(graph):
         kind = node[0]
@@ -86,7 +101,7 @@ def fields_for(graph, as_files):
             if as_files:
                 out.append("Fl%d.sld=\x00UNREADABLE" % i)
             continue
-        t = lib_text(i, node)
+        t = lib_text(i, node, style)
         out.append(("Fl%d.sld=" % i if as_files else "Rl%d=" % i) + t)
     return out
 
@@ -113,6 +128,7 @@ def run(rep, tier, rng):
                 continue   # registered sources cannot be unreadable; a broken/wrong-name source fails at registration
             if not as_files and rng.random() < (0.7 if tier == "quick" else 0.0):
                 continue
+            style = rng.choice(EDGE_STYLES) if any(x[1] for x in g) else "plain"
             for h in hists:
                 cid = "g%d" % k; k += 1
                 # after an import that must succeed, the library's own value is probed (it is v<i> = i, never another file's)
@@ -123,7 +139,7 @@ def run(rep, tier, rng):
                 for x in sorted(set(h)):
                     if expect(g, x) == "ok":
                         forms.append(">v%d" % x); probes.append("V i:%d" % x)
-                cases.append((cid, "libs", ["nostd"] + fields_for(g, as_files) + forms))
+                cases.append((cid, "libs", ["nostd"] + fields_for(g, as_files, style) + forms))
                 meta[cid] = (g, h, as_files, probes)
     impl = C.run_hx(cases)
     model = C.run_driver(cases)
@@ -131,8 +147,15 @@ def run(rep, tier, rng):
     for cid, _, f in cases:
         g, h, as_files, probes = meta[cid]
         a, b = impl.get(cid, []), model.get(cid, [])
+        if a and a[0].startswith("X not-run"):
+            rep.extra["cases_not_run_after_repeated_process_deaths"] = rep.extra.get("cases_not_run_after_repeated_process_deaths", 0) + 1
+            continue
         rep.count()
         rep.nontrivial((tuple(g), h, as_files))
+        if a and a[0].startswith(("P process-died", "T timeout")):
+            rep.violation({"what": "loading these libraries does not terminate normally: the interpreter process died (stack overflow / abort) or hung",
+                           "graph": g, "as_files": as_files, "attempts": h, "files": [x for x in f if x[:1] in "FRW"], "implementation": a})
+            continue
         if len(rep.cov["samples"]) < 4 and len(g) == 3 and as_files:
             rep.sample({"graph": g, "attempts": h, "files": f[1:1 + len(g)], "implementation": a})
         bad = False
@@ -167,7 +190,7 @@ def main(tier, seed):
     rep = C.Report(PROP, tier, seed)
     rng = random.Random(seed)
     rep.cov["rule"] = ("library graphs on 1-3 nodes, each node healthy or with a faulting body and any subset (ordered for n<=2) of "
-                       "dependencies, or missing (with a decoy of that name in the process's working directory) / defining another name (an unused one, or ANOTHER NODE's name with a different body) / syntactically broken / not UTF-8; all 1- and 2-node "
+                       "dependencies (each written as a plain, only, prefix, rename or except import set, one style per configuration or mixed), or missing (with a decoy of that name in the process's working directory) / defining another name (an unused one, or ANOTHER NODE's name with a different body) / syntactically broken / not UTF-8; all 1- and 2-node "
                        "configurations x all histories of 3 attempts, 1200 sampled (thorough: all) 3-node configurations x "
                        "histories of 2 attempts; as files under a program directory that is not the working directory, and as "
                        "registered sources; distinct = (graph, history, variant)")
